@@ -5,12 +5,12 @@ package main
 // push/pop/reset is ever needed and one process serves all paths of a worker.
 
 import (
-	"os"
 	"bufio"
 	"fmt"
 	"io"
 	"math"
 	"math/big"
+	"os"
 	"os/exec"
 	"strings"
 	"time"
